@@ -17,7 +17,7 @@ m = {
         "add_only": True,
     },
     "engines": [
-        {"name": "lean-model", "path": "lean/", "serves_properties": sorted(PROPS), "kind_free_text": "Lean 4 model + theorems (lake project BHS), regenerated modules under lean/BHS/Gen, line-protocol driver bhsdriver"},
+        {"name": "lean-model", "path": "lean/", "serves_properties": sorted(PROPS), "kind_free_text": "Lean 4 model + theorems (lake project BHS), regenerated modules under lean/BHS/Gen, regenerated Go→Lean translations with refinement theorems, one line-protocol model driver per group (lean/Driver/Mains, exes drv_<group>)"},
         {"name": "harness", "path": "harness/", "serves_properties": sorted(PROPS), "kind_free_text": "Go: extractor/translator (cmd/extract) and correspondence + oracle driver (cmd/drive) running the real stack"},
     ],
     "checks": [],
